@@ -4,9 +4,11 @@ import gen_pyfuns
 import gen_dict
 import gen_commands
 import gen_psm
+import gen_split
 
 if __name__ == "__main__":
     print("PyFuns:", gen_pyfuns.generate()[:2])
     print("Dictionary:", gen_dict.generate()[0])
     print("Commands:", gen_commands.generate()[0])
     print("Psm:", gen_psm.generate())
+    print("Split:", gen_split.generate())
